@@ -133,8 +133,11 @@ def pipeline_results(rules, transforms, ptxns, rows, tmp):
         w = csv.writer(f)
         w.writerow(['Date', 'Description', 'Amount', 'Memo', 'Code', 'Where'])
         for t in ptxns:
-            w.writerow([t['date'].isoformat(), t['description'], repr(t['amount']), t['field']['memo'], t['field']['code'], t['location']])
-    spec = parse_format_string('{date:%Y-%m-%d},{description},{amount},{memo},{code},{location}')
+            # (every other file is a statement that writes charges as negatives, read with {-amount}: the rules see the amount the transaction carries)
+            w.writerow([t['date'].isoformat(), t['description'], repr(-t['amount'] if (len(ptxns) // 3) % 2 else t['amount']), t['field']['memo'], t['field']['code'], t['location']])
+    # (capture names are case-insensitive: a settings file may spell them {Memo} / {CODE}; rules read field.memo / field.code all the same)
+    names = [('{memo}', '{code}'), ('{Memo}', '{CODE}'), ('{MEMO}', '{Code}')][len(ptxns) % 3]
+    spec = parse_format_string('{date:%%Y-%%m-%%d},{Description},%s,%s,%s,{location}' % (('{-amount}' if (len(ptxns) // 3) % 2 else '{amount}',) + names))
     try:
         got = parse_generic_csv(path, spec, rules, source_name=ptxns[0]['source'] if ptxns else 'CSV', transforms=transforms,
                                 data_sources=copy_rows(rows))
